@@ -100,7 +100,7 @@ def main():
             units.append(rest[i]); i += 1
     os.makedirs(outdir, exist_ok=True)
     report = os.path.join(outdir, 'mutation_report.jsonl')
-    rnd = random.Random(7)
+    rnd = random.Random(int(os.environ.get('MUT_SEED', '7')))
     for unit in units:
         meta = asm.assemble(unit, repo, 'partial', outdir)
         for f in meta['functions']:
